@@ -873,6 +873,107 @@ v("C10", "peer-from-caller", "inprocgrpc/in_process.go",
 v("C10", "client-ctx-stores-derived", "inprocgrpc/in_process.go",
   "	newCtx = context.WithValue(newCtx, &clientContextKey, ctx)", "	newCtx = context.WithValue(newCtx, &clientContextKey, newCtx)", "R2", "stores-client-ctx", "ClientContext returns the server-side context, not the caller's")
 
+# ------------------------------------------------------------------ C01
+v("C01", "last-frame-cache-on-channel", "inprocgrpc/in_process.go",
+  """type Channel struct {
+	handlers          grpchan.HandlerMap""", """type Channel struct {
+	lastResp          chan frame
+	handlers          grpchan.HandlerMap""", "R1", "no-per-call-fields", "a channel field on the long-lived Channel")
+v("C01", "per-call-write-to-channel", "inprocgrpc/in_process.go",
+  """	cloner := c.cloner
+	if cloner == nil {
+		cloner = ProtoCloner{}
+	}
+
+	go func() {""", """	cloner := c.cloner
+	if cloner == nil {
+		cloner = ProtoCloner{}
+		c.cloner = cloner
+	}
+
+	go func() {""", "R1", "store-longlived", "per-call code lazily initialises shared channel state (racy, shared)")
+v("C01", "shared-buffer-global", "httpgrpc/io.go",
+  """	b, err := codec.Marshal(m)
+	if err != nil {
+		return err
+	}
+
+	sz := len(b)""", """	b, err := codec.Marshal(m)
+	if err != nil {
+		return err
+	}
+	lastFrame = b
+
+	sz := len(b)""", "R1", "store-global", "per-call code writes a package variable", edits=[
+   {"file": "httpgrpc/io.go", "old": """	b, err := codec.Marshal(m)
+	if err != nil {
+		return err
+	}
+
+	sz := len(b)""", "new": """	b, err := codec.Marshal(m)
+	if err != nil {
+		return err
+	}
+	lastFrame = b
+
+	sz := len(b)"""},
+   {"file": "httpgrpc/io.go", "old": "const (\n	maxMessageSize", "new": "var lastFrame []byte\n\nconst (\n	maxMessageSize"}])
+v("C01", "http-send-skips-empty", "httpgrpc/server.go",
+  """	s.headersSent = true // sent implicitly
+	err := writeProtoMessage(s.w, s.codec, m, false)""", """	s.headersSent = true // sent implicitly
+	if pm, ok := m.(interface{ String() string }); ok && pm.String() == "" {
+		return nil
+	}
+	err := writeProtoMessage(s.w, s.codec, m, false)""", "R2", "success-needs-handover", "empty messages are silently not sent")
+v("C01", "writemessage-nil-on-remote-done", "inprocgrpc/in_process.go",
+  """	case <-remote:
+		// This is weird, but mimics normal gRPC streams: io.EOF is used
+		// to notify client that server has closed the stream
+		return io.EOF
+	}""", """	case <-remote:
+		return nil
+	}""", "R2", "deliverer", "send reports success although the frame was never taken")
+v("C01", "inproc-send-twice", "inprocgrpc/in_process.go",
+  """	return writeMessage(s.ctx, s.svrCtx, s.requests, frame{data: m})
+}""", """	if err := writeMessage(s.ctx, s.svrCtx, s.requests, frame{data: m}); err != nil {
+		return writeMessage(s.ctx, s.svrCtx, s.requests, frame{data: m})
+	}
+	return nil
+}""", "R2", "success-needs-handover", "retry can deliver the message twice")
+v("C01", "recv-success-without-copy", "inprocgrpc/in_process.go",
+  """	if resp.err != nil {
+		return resp.err
+	}
+	return s.cloner.Copy(m, resp.data)""", """	if resp.err != nil {
+		return resp.err
+	}
+	if resp.data == nil {
+		return nil
+	}
+	return s.cloner.Copy(m, resp.data)""", "R3", "success-needs-one-decode", "a receive can succeed without filling the destination")
+v("C01", "http-frame-size-little-endian", "httpgrpc/io.go",
+  "	err := binary.Read(in, binary.BigEndian, &sz)", "	err := binary.Read(in, binary.LittleEndian, &sz)", "R5", "byte-order", "reader and writer disagree on byte order (all test messages < 256 bytes still parse wrongly — caught by suite? kept as checker self-test)")
+v("C01", "size-of-other-slice", "httpgrpc/io.go",
+  """	_, err = w.Write(b)
+	if err == nil {""", """	_, err = w.Write(append(b, 0)[:len(b):len(b)])
+	if err == nil {""", "R5", "size-is-len", "the slice written is not the one whose length was announced")
+v("C01", "content-length-off", "httpgrpc/server.go",
+  """		w.Header().Set("Content-Length", fmt.Sprintf("%d", len(b)))""", """		w.Header().Set("Content-Length", fmt.Sprintf("%d", len(req)))""", "R5", "content-length", "Content-Length announces the request's length")
+v("C01", "recv-outside-lock", "inprocgrpc/in_process.go",
+  """func (s *inProcessClientStream) RecvMsg(m interface{}) error {
+	s.respMu.Lock()
+	defer s.respMu.Unlock()
+	return s.recvMsgLocked(m, !s.responseStream)""", """func (s *inProcessClientStream) RecvMsg(m interface{}) error {
+	return s.recvMsgLocked(m, !s.responseStream)""", "R4", "receive(", "concurrent receivers interleave frames")
+v("C01", "negate-always", "httpgrpc/io.go",
+  """	if end {
+		// trailer message is indicated w/ negative size
+		sz = -sz
+	}""", """	if end || sz == 0 {
+		// trailer message is indicated w/ negative size
+		sz = -sz
+	}""", silent=True, why="behaviour-preserving: -0 == 0")
+
 
 def main():
     if os.path.isdir(OUT):
